@@ -158,6 +158,37 @@ def gen_tasks(tier, seed):
                       "ndev": [2, 3][cid % 2] if mode == "pmapq" else None,
                       "npjit": [1, 2, 3][cid % 3] if mode == "sharded" else None,
                       "defaults": False, "histories": hs})
+    # ---- frequent directions with the periodic reset of the warm start (reset_preconditioner: every round(1/(1-beta2)) steps):
+    # on a reset step whose root is rejected, or which is not a refresh step, the stored sketch must stay bit-identical
+    rgrid = []
+    TR = 8 if quick else 11
+    if quick:
+        for mi, mode in enumerate(MODES):
+            for bi, b2 in enumerate([0.5, 0.75, 0.8]):
+                rgrid.append((mode, b2, [3, 1, 2][(bi + mi + seed) % 3], [0.1, 0.1, 1e30, 0.0][(bi + 2 * mi + seed) % 4], EPSS[(bi + mi + seed) % 3]))
+    else:
+        for mode in MODES:
+            for b2 in [0.5, 0.75, 0.8]:
+                for pi in [1, 2, 3]:
+                    for thr in [0.1, 1e30, 0.0]:
+                        rgrid.append((mode, b2, pi, thr, EPSS[(len(rgrid) + seed) % 3]))
+    for gi, (mode, b2, pi, thr, eps) in enumerate(rgrid):
+        cid += 1
+        rf = int(round(1 / (1 - b2)))
+        v = VARIANTS[4 + (gi + seed) % 2]
+        hs = [{"kinds": ["ok"] * TR, "target": "all", "gseed": seed * 31 + cid},
+              {"kinds": [rng.choice(["ok", "ok", "zero", "small", "big"]) for _ in range(TR)], "target": "all", "gseed": seed * 37 + cid}]
+        for k in range(rf, TR, rf):        # one fault exactly ON each reset step (the root of that step is rejected)
+            kinds = ["ok"] * TR
+            kinds[k] = rng.choice(["nan", "nan1", "pinf", "inf1", "huge"])
+            hs.append({"kinds": kinds, "target": rng.choice(["p0", "all"]), "gseed": seed * 41 + cid * 7 + k})
+        for h in range(3 if quick else 6):
+            hs.append({"kinds": _history(rng, TR, p=[0.2, 0.35][h % 2]), "target": rng.choice(["p0", "all", "p1"]), "gseed": seed * 43 + cid * 11 + h})
+        tasks.append({"kind": "ds", "mode": mode, "thr": thr, "eps": eps, "eigh": False, "pi": pi, "T": TR,
+                      "shapes": v["shapes"], "block": v["block"], "graft": GRAFTS[(gi + seed) % len(GRAFTS)],
+                      "variant": dict(v["variant"], reset=b2),
+                      "ndev": [2, 3][cid % 2] if mode == "pmapq" else None, "npjit": [1, 2, 3][cid % 3] if mode == "sharded" else None,
+                      "defaults": False, "histories": hs})
     return tasks
 
 
@@ -284,6 +315,9 @@ def _build(c):
         kw.update(compression_rank=v["rank"])
     if "fd" in v:
         kw.update(compression_rank=v["fd"], frequent_directions=True, reuse_preconditioner=True, statistics_compute_steps=c["pi"])
+    if "reset" in v:
+        # reset_frequency = round(1 / (1 - beta2)); the optimizer then behaves like beta2 = 1 between resets
+        kw.update(reset_preconditioner=True, beta2=v["reset"])
     mesh = None
     if mode == "replicated":
         kw.update(batch_axis_name=None)
@@ -521,6 +555,11 @@ def _reuse(c):
     return bool((c.get("variant") or {}).get("fd"))
 
 
+def _reset_freq(c):
+    b2 = (c.get("variant") or {}).get("reset")
+    return int(round(1 / (1 - b2))) if b2 else 0
+
+
 def _hex32_fraction(h):
     import math
     v = float(kit.hex_f32(h))
@@ -560,7 +599,7 @@ def model_requests(o):
                  "errs": [[st["slots"][k]["err"] for k in owned] for st in o["steps"]]})
     # ... and slot 0 alone through `slotStep` (the two must agree)
     if owned:
-        reqs.append({"op": "slot_trace", "mode": _model_mode(o), "thr": thr, "itv": c["pi"], "reuse": _reuse(c),
+        reqs.append({"op": "slot_trace", "mode": _model_mode(o), "thr": thr, "itv": c["pi"], "reuse": _reuse(c), "reset": _reset_freq(c),
                      "init_err": o["init_errs"][owned[0]], "errs": [st["slots"][owned[0]]["err"] for st in o["steps"]]})
     # decoding of every observed error and of the threshold
     allb = sorted({st["slots"][k]["err"] for st in o["steps"] for k in range(nslot) if st["slots"][k]["err"] is not None} | {thr})
